@@ -1,8 +1,10 @@
-(* C39 obligation: function_symbols(e) = the FunctionSymbol subexpressions of e (completeness
-   under closure_exact, see P_atoms_complete_partial.v). *)
-From SE Require Import C39.Atoms.
+(* C39 obligation: function_symbols(e) = the FunctionSymbol subexpressions of e: everything
+   returned is one, and every one is represented (up to the library's equality, see
+   P_atoms_complete.v). *)
+From SE Require Import C39.AtomsComplete.
 Theorem C39_function_symbols_spec :
   (forall e x, In x (function_symbols e) -> (exists nm args, x = EFunSym nm args) /\ subarg x e) /\
-  (forall e nm args, closure_exact e -> subarg (EFunSym nm args) e -> In (EFunSym nm args) (function_symbols e)).
-Proof. split; [exact function_symbols_sound|exact function_symbols_complete_partial]. Qed.
+  (forall e nm args, tree_ok e = true -> nums_ok e = true -> subarg (EFunSym nm args) e ->
+     exists y, In y (function_symbols e) /\ same (EFunSym nm args) y).
+Proof. split; [exact function_symbols_sound|exact function_symbols_complete]. Qed.
 Print Assumptions C39_function_symbols_spec.
